@@ -85,18 +85,21 @@ class ItemAttributeList(List[T]):
 
         list.insert(self, index, obj)
 
-    def remove(self, obj: T) -> None:
-        list.remove(self, obj)
+    def _del_attribute_item(self, item: T) -> None:
+        # only forget the name of the object that has actually been
+        # removed from the list (other items which compare equal
+        # must stay accessible)
+        for key, value in self._item_dict.items():
+            if value is item:
+                del self._item_dict[key]
+                break
 
-        keys = [k for (k, v) in self._item_dict.items() if v == obj]
-        for key in keys:
-            del self._item_dict[key]
+    def remove(self, obj: T) -> None:
+        self._del_attribute_item(list.pop(self, list.index(self, obj)))
 
     def pop(self, index: SupportsIndex = -1) -> T:
         result = list.pop(self, index)
-        keys = [k for (k, v) in self._item_dict.items() if v == result]
-        for key in keys:
-            del self._item_dict[key]
+        self._del_attribute_item(result)
         return result
 
     def extend(self, items: Iterable[T]) -> None:
